@@ -113,7 +113,11 @@ fn body(c: &Case, ctx: &Ctx, kb: &mut bool) -> Result<(), Fail> {
     }
     // borrowed C string view
     let cs = std::ffi::CString::new(prefix).unwrap();
+    #[cfg(feature = "std")]
     let v = ReprCStr::from(cs.as_c_str());
+    // (without the library's `std` feature there is no conversion from &CStr)
+    #[cfg(not(feature = "std"))]
+    let v: ReprCStr = unsafe { std::mem::transmute::<*const std::os::raw::c_char, ReprCStr>(cs.as_ptr()) };
     ensure!(v.as_ref() == prefix, "cstr", "ReprCStr reads {:?}, expected {prefix:?}", v.as_ref());
     ensure!(format!("{v}") == prefix, "cstr", "ReprCStr Display differs");
     ensure!(hash_of(&v) == hash_of(prefix), "cstr", "ReprCStr Hash differs");
